@@ -171,6 +171,7 @@ func init() {
 	// pause / delete flags raised mid-flight
 	profiles["flags"] = &Profile{Name: "flags", Tweak: func(r *PRNG, c *Config) {
 		c.Weights["pause"] = 8
+		c.UnpauseAtQuiesce = true
 		c.Weights["delset"] = 3
 		c.Weights["mkset"] = 2
 		c.Weights["gc"] = 12
